@@ -1,8 +1,9 @@
 import GoomVerif.Model.X86Dec
 /-! The consumers of the decoder (`internal/bytecode/ins_amd64.go:9 ParseIns`, the `pos = pos + ins.Len` loops of
-    `inline_check_amd64.go:23`, `func_amd64.go:40 GetFuncSize`, `func_amd64.go:67 PrintInstf`, `internal/patch/fix_addr_amd64.go`):
+    `inline_check_amd64.go:23`, `func_amd64.go:67 PrintInstf`, `internal/patch/fix_addr_amd64.go`, and `func_amd64.go:23 GetFuncSize`):
     decode a ≤ 16-byte window at `pos`, stop on error, otherwise advance by `Len`; PC-relative users slice
-    `code[PCRelOff : PCRelOff+PCRel]` out of the window. -/
+    `code[PCRelOff : PCRelOff+PCRel]` out of the window.  Both loops are run against the real Go functions by the probe
+    `harness/c16/consumer_probe_test.go` (`c16.scan`, `c16.fsize`). -/
 namespace X86Dec
 
 /-- ins_amd64.go:14-19: `code := copyOrigin[pos:min(pos+16, len)]` -/
@@ -21,5 +22,28 @@ def scanLoop (code : Bytes) : Nat → Nat → Option Nat
     else match scanStep code pos with
       | none => some pos
       | some p => scanLoop code f p
+
+/-- func_unix.go:11 `defaultFuncPrologue64` -/
+def funcPrologue : Bytes := [0x65, 0x48, 0x8b, 0x0c, 0x25, 0x30, 0x00, 0x00, 0x00, 0x48]
+
+/-- func_amd64.go:23 `GetFuncSize(64, start, minimal = false)` over a memory image `mem` starting at `start`
+    (`memory.RawRead(start+curLen, 16)` = `window mem curLen`; the probe supplies an image that ends in INT3 padding and a
+    prologue, as Go text does).  `none` = fuel exhausted. -/
+def funcSizeLoop (mem : Bytes) : Nat → Nat → Bool → Option Nat
+  | 0, _, _ => none
+  | f + 1, cur, int3Found =>
+    let code := window mem cur
+    let r := decode code
+    let b0 := (code.headD 0).toNat
+    -- :43 `err != nil || (inst.Opcode == 0 && inst.Len == 1 && inst.Prefix[0] == Prefix(code[0]))`; for the prefix-only pseudo
+    -- instruction `instPrefix` (decode.go:171) maps 0x66 / 0x67 to PrefixData16 / PrefixAddr32, every other byte to itself
+    if r.err ≠ .ok ∨ (r.opcode = 0 ∧ r.len = 1 ∧ b0 ≠ 0x66 ∧ b0 ≠ 0x67) then some cur
+    else
+      let isInt3 := r.len = 1 ∧ b0 = 0xcc
+      if ¬ isInt3 ∧ int3Found = true then some cur                            -- :53
+      else
+        let cur' := cur + r.len
+        if (window mem cur').take funcPrologue.length = funcPrologue then some cur'   -- :58
+        else funcSizeLoop mem f cur' (if isInt3 then true else int3Found)
 
 end X86Dec
